@@ -43,6 +43,8 @@ def main():
         "probabilistic modules: decision logic only, checked differentially (oracle) with deterministic distributions; sampling is torch",
     ]
     run.build_and_audit(["TdVerif.Props.C14"])
+    import c13_shapes
+    c13_shapes.check(run, "C14")   # the hand-transcribed functions still have the shape that was transcribed
     if run.tier == "thorough":
         run.leanchecker(["TdVerif.Props.C14", "TdVerif.Lemmas.C14", "TdVerif.Lemmas.C14Nested", "TdVerif.Model.C14Seq", "TdVerif.Model.C14Prob"])
     drv = run.driver()
